@@ -119,6 +119,7 @@ class Event:
         self.ctx = ctx        # tuple of context entries
         self.path = path      # tuple of (block-id, stmt-index) from outermost to innermost
         self.line = node.get("line", 0)
+        self.div = frozenset()  # ids of the enclosing regions that end in `return` (set by events())
 
     def in_arm(self, variant):
         return any(c[0] == "arm" and variant in c[2] for c in self.ctx)
@@ -135,10 +136,26 @@ class Event:
 
 def events(fn_item, enum="SymbolicByteCode"):
     """all op constructions and calls in a function body, in source order, with context"""
-    out = []
+    divstack = []     # enclosing regions after which control does not continue: `return <expr>`, a block ending in `return`
+
+    class _Out(list):
+        def append(self, ev):
+            ev.div = frozenset(divstack)
+            list.append(self, ev)
+    out = _Out()
     counter = [0]
 
+    def _ends_in_return(b):
+        st = b.get("stmts") or []
+        return bool(st) and st[-1].get("s") == "expr" and (st[-1].get("e") or {}).get("e") == "return"
+
     def visit(e, ctx, path):
+        if isinstance(e, dict) and (e.get("e") == "return" or (e.get("e") == "block" and _ends_in_return(e))) and id(e) not in divstack:
+            divstack.append(id(e))
+            try:
+                return visit(e, ctx, path)
+            finally:
+                divstack.pop()
         if e is None:
             return
         if isinstance(e, list):
@@ -245,3 +262,74 @@ def same_block_next(evs, ev, kinds=("op",)):
                 later.append((j, evs.index(x), x))
     later.sort(key=lambda t: (t[0], t[1]))
     return later[0][2] if later else None
+
+
+def _pure_value(e, depth=0):
+    """an expression that only selects among names/constructors (no effects besides the conditions it tests)"""
+    if not isinstance(e, dict) or depth > 6:
+        return False
+    k = e.get("e")
+    if k in ("path", "lit"):
+        return True
+    if k == "paren":
+        return _pure_value(e.get("a"), depth + 1)
+    if k == "if":
+        return _pure_value(e.get("then"), depth + 1) and e.get("else") is not None and _pure_value(e.get("else"), depth + 1)
+    if k == "block":
+        st = e.get("stmts") or []
+        return len(st) == 1 and st[0].get("s") == "expr" and not st[0].get("semi") and _pure_value(st[0]["e"], depth + 1)
+    if k == "match":
+        return all(_pure_value(a.get("body"), depth + 1) for a in e.get("arms") or [])
+    return False
+
+
+def subst_lets(block):
+    """copy of a block in which `let x = <value selected among names>;` (x not mut) is dropped and x replaced by
+    that value where it is used later in the block: `let kind = if c { A } else { B }; f(kind)` reads `f(if c { A } else { B })`.
+    The conditions inside the value are evaluated where the let stood, so this is only for reading which value
+    reaches a use, not for ordering effects."""
+    import json as _json
+    b = _json.loads(_json.dumps(block))
+
+    def repl(node, name, val):
+        if isinstance(node, list):
+            for i, x in enumerate(node):
+                if isinstance(x, dict) and x.get("e") == "path" and x.get("p") == name:
+                    node[i] = _json.loads(_json.dumps(val))
+                else:
+                    repl(x, name, val)
+        elif isinstance(node, dict):
+            for k_, x in list(node.items()):
+                if k_ == "pat":
+                    continue
+                if isinstance(x, dict) and x.get("e") == "path" and x.get("p") == name:
+                    node[k_] = _json.loads(_json.dumps(val))
+                else:
+                    repl(x, name, val)
+
+    def rec(blk):
+        if isinstance(blk, list):
+            for x in blk:
+                rec(x)
+            return
+        if not isinstance(blk, dict):
+            return
+        if blk.get("e") == "block":
+            stmts = blk.get("stmts") or []
+            i = 0
+            while i < len(stmts):
+                st = stmts[i]
+                pat = st.get("pat") or {}
+                if st.get("s") == "let" and pat.get("p") == "ident" and not pat.get("mut") and not pat.get("ref") and st.get("else") is None and _pure_value(st.get("init")):
+                    rest = stmts[i + 1:]
+                    # shadowing by a later let of the same name ends the substitution: keep it simple, refuse then
+                    if not any(s2.get("s") == "let" and (s2.get("pat") or {}).get("p") == "ident" and s2["pat"].get("name") == pat["name"] for s2 in rest):
+                        repl(rest, pat["name"], st["init"])
+                        del stmts[i]
+                        continue
+                i += 1
+        for v in blk.values():
+            if isinstance(v, (dict, list)):
+                rec(v)
+    rec(b)
+    return b
